@@ -149,12 +149,13 @@ Definition front (c : cfg) (client : Acl.addr) (port : N) (q : pkt) : outcome ro
   end.
 
 (* cache/mod.rs handle_query in front of outquery.rs: result, new cache and store, and the
-   upstream queries emitted (none on a hit) *)
-Definition cache_stage (st : pstate) (q : pkt) (tcp : bool) (t_ns : N) (srv id : N) (u : upstream)
+   upstream queries emitted (none on a hit).  [t_ns]: the clock when the cache is consulted,
+   [t_ins]: when the resolver's result is stored (later by the time the resolver took) *)
+Definition cache_stage (st : pstate) (q : pkt) (tcp : bool) (t_ns t_ins : N) (srv id : N) (u : upstream)
   : outcome (upres * DnsCache.cache * list (DnsCache.key * pkt) * list upq) :=
   let k := key_of q in
   let o := out_query tcp id u in
-  match DnsCache.handle (s_cache st) k (qclass q) t_ns t_ns (abs_result (fst o)) with
+  match DnsCache.handle (s_cache st) k (qclass q) t_ns t_ins (abs_result (fst o)) with
   | (res, c', asked) =>
     if asked then
       do qb <- encode (outquery id q);
@@ -210,7 +211,7 @@ Section Pipeline.
       Ok (fst r, upd (snd ij) (snd (snd r)) (upd (fst ij) (fst (snd r)) (s_buckets st))).
 
   (* one query through the whole pipeline *)
-  Definition dns_step (c : cfg) (st : pstate) (t_ns t_s : N)
+  Definition dns_step (c : cfg) (st : pstate) (t_ns t_ins t_s : N)
       (client : Acl.addr) (port : N) (local : Acl.addr) (tcp : bool)
       (b : list N) (u : upstream) (id : N) (eo : opts)
     : outcome (pstate * option (list N) * list upq) :=
@@ -222,7 +223,7 @@ Section Pipeline.
       do staged <- match rt with
                    | Refuse kind => Ok (in_error q kind eo, s_cache st, s_store st, [])
                    | ToServer srv =>
-                     do x <- cache_stage st q tcp t_ns srv id u;
+                     do x <- cache_stage st q tcp t_ns t_ins srv id u;
                      match x with
                      | (r, c', store', qs) => Ok (reply_of q r eo, c', store', qs)
                      end
